@@ -84,6 +84,13 @@ def Container.specGetFrame (c : Container) (key : Str) (valid : Bool) : Except C
     | some f => .ok f
     | none => .error CIF_NOSUCH_FRAME
 
+/-- cif_container_create_frame: a new, empty save frame under the spelling given, last among the container's frames, unless the
+    code is invalid or (normalised) already in use in this container -/
+def Container.specCreateFrame (c : Container) (key orig : Str) (valid : Bool) : Except Code Container :=
+  if !valid then .error CIF_INVALID_FRAMECODE
+  else if c.frames.any (fun f => norm f.code == key) then .error CIF_DUP_FRAMECODE
+  else .ok (.mk c.code (c.frames ++ [.mk orig [] []]) c.loops)
+
 /-- cif_get_all_blocks: the codes, in their original spelling -/
 def specBlockCodes (cif : Cif) : List Str := cif.map (·.code)
 
